@@ -27,6 +27,7 @@ type singleRes struct {
 	Scenario string `json:"scenario"` // later-block | same-block | pool-after-chain | pool-pool
 	First    int    `json:"first_version"`
 	Second   int    `json:"second_version"`
+	Layout   string `json:"output_layout,omitempty"` // "" = a single withdraw output
 	// controls
 	FirstAccepted   bool   `json:"first_accepted"`
 	FreshAccepted   bool   `json:"fresh_hash_accepted"` // the second transaction with a fresh hash instead
@@ -81,7 +82,7 @@ func newFixtureB(scr string) *fixtureB {
 	f.code = lightnode.CrossChainCode(f.m, keys, -1)
 	f.xhash = *common.ToProgramHash(0x4B, f.code)
 	var outs []*common2.Output
-	for i := 0; i < 200; i++ {
+	for i := 0; i < 700; i++ {
 		outs = append(outs, lightnode.Output(f.xhash, 1000))
 	}
 	fund, err := node.Fund("c33-b", outs...)
@@ -100,9 +101,14 @@ func (f *fixtureB) utxo() *common2.Input {
 
 // signed builds a fully valid, signed withdrawal of the given version for side-chain hash x.
 func (f *fixtureB) signed(version int, x common.Uint256) interfaces.Transaction {
+	return f.signedLayout(version, []slot{{Hash: x}})
+}
+
+// signedLayout builds a fully valid, signed withdrawal whose outputs follow layout.
+func (f *fixtureB) signedLayout(version int, layout []slot) interfaces.Transaction {
 	ins := []*common2.Input{f.utxo()}
 	signers := []uint8{0, 1, 2}
-	tx := mkWithdraw(byte(version), signers, ins, f.owner.StandardHash(), x, nil)
+	tx := mkWithdrawLayout(byte(version), signers, ins, f.owner.StandardHash(), layout, nil)
 	// nonce attribute keeps transaction hashes distinct
 	attr := common2.NewAttribute(common2.Nonce, []byte(fmt.Sprintf("c33-%d", f.next)))
 	tx.SetAttributes([]*common2.Attribute{&attr})
@@ -277,17 +283,63 @@ func runSingle(scr string) []singleRes {
 			}
 		}
 	}
+	// ---- output-order variants: the repeated hash at every position among change outputs and
+	// other withdraw outputs, offered after the first withdrawal is on the chain
+	for first := 0; first <= 2; first++ {
+		for second := 0; second <= 2; second++ {
+			for _, lay := range layouts() {
+				x := freshHash(0xC1)
+				r := singleRes{Scenario: "later-block", First: first, Second: second, Layout: lay.Name}
+				// the first withdrawal carries the hash in the same layout (index written for
+				// every position)
+				w1 := f.signedLayout(first, lay.build(x))
+				ok1, s1 := f.offer(w1)
+				r.FirstAccepted = ok1
+				if _, err := f.node.SaveBlock(w1); err != nil {
+					evid.Fatalf("save block: %v", err)
+				}
+				r.IndexHasHash = f.node.Tx3Exists(x)
+				fresh, sf := f.offer(f.signedLayout(second, lay.build(freshHash(0xC2))))
+				r.FreshAccepted = fresh && r.IndexHasHash
+				r.ControlsVerdict = fmt.Sprintf("first: %s; index has hash: %v; same layout with a fresh hash: %s", s1, r.IndexHasHash, sf)
+				r.RepeatAccepted, r.RepeatVerdict = f.offer(f.signedLayout(second, lay.build(x)))
+				out = append(out, r)
+			}
+		}
+	}
 	return out
+}
+
+type layoutGen struct {
+	Name  string
+	build func(x common.Uint256) []slot
+}
+
+// layouts: C = change (plain) output, W = withdraw output with a fresh hash, X = withdraw output
+// with the hash under test.
+func layouts() []layoutGen {
+	c := slot{Change: true}
+	w := func() slot { return slot{Hash: freshHash(0xC3)} }
+	return []layoutGen{
+		{"C,X", func(x common.Uint256) []slot { return []slot{c, {Hash: x}} }},
+		{"X,C", func(x common.Uint256) []slot { return []slot{{Hash: x}, c} }},
+		{"C,X,C", func(x common.Uint256) []slot { return []slot{c, {Hash: x}, c} }},
+		{"W,C,X", func(x common.Uint256) []slot { return []slot{w(), c, {Hash: x}} }},
+		{"X,W", func(x common.Uint256) []slot { return []slot{{Hash: x}, w()} }},
+		{"W,X", func(x common.Uint256) []slot { return []slot{w(), {Hash: x}} }},
+		{"W,X,W", func(x common.Uint256) []slot { return []slot{w(), {Hash: x}, w()} }},
+		{"C,W,X", func(x common.Uint256) []slot { return []slot{c, w(), {Hash: x}} }},
+	}
 }
 
 func judgeSingle(r *evid.Run, xs []singleRes, classes *evid.Distinct) (repeatsRejected, repeatsAccepted int) {
 	for _, x := range xs {
 		art := map[string]interface{}{"kind": "single-use", "case": x}
-		classes.Add(fmt.Sprintf("single|%s|first=v%d|second=v%d|repeat-accepted=%v", x.Scenario, x.First, x.Second, x.RepeatAccepted))
+		classes.Add(fmt.Sprintf("single|%s|layout=%s|first=v%d|second=v%d|repeat-accepted=%v", x.Scenario, x.Layout, x.First, x.Second, x.RepeatAccepted))
 		if !x.FirstAccepted || !x.FreshAccepted {
 			// the fixture's withdrawals must be valid on their own, otherwise a rejection of the
 			// repeat says nothing
-			evid.Fatalf("C33 single-use fixture is not valid on its own (%s v%d/v%d): %s", x.Scenario, x.First, x.Second, x.ControlsVerdict)
+			evid.Fatalf("C33 single-use fixture is not valid on its own (%s %s v%d/v%d): %s", x.Scenario, x.Layout, x.First, x.Second, x.ControlsVerdict)
 		}
 		if !x.RepeatAccepted {
 			repeatsRejected++
@@ -297,7 +349,7 @@ func judgeSingle(r *evid.Run, xs []singleRes, classes *evid.Distinct) (repeatsRe
 		switch x.Scenario {
 		case "later-block", "pool-after-chain":
 			r.Violate(fmt.Sprintf("C33|single-use|on-chain-hash-accepted-again|repeat=v%d", x.Second),
-				fmt.Sprintf("a side-chain transaction hash already withdrawn on the active chain is accepted again in a fully valid v%d withdrawal (%s; first withdrawal v%d): %s", x.Second, x.Scenario, x.First, x.RepeatVerdict), art)
+				fmt.Sprintf("a side-chain transaction hash already withdrawn on the active chain is accepted again in a fully valid v%d withdrawal (%s; first withdrawal v%d; output layout %q): %s", x.Second, x.Scenario, x.First, x.Layout, x.RepeatVerdict), art)
 		case "same-block":
 			class := "output-carried-hash" // at least one of the two is v1/v2: the hash travels in an output payload
 			if x.First == 0 && x.Second == 0 {
